@@ -42,6 +42,7 @@ struct Script {
     std::vector<Reader> readers;
     std::vector<OItem> items;
     bool retOk = true;
+    bool noHandler = false;   // the table entry has a NULL callback
     int numbers = 0;          // > 0: call SCPI_CommandNumbers with that many slots
     int32_t numDefault = -7;
     std::vector<std::string> isCmdProbes;
@@ -68,7 +69,10 @@ struct InstCfg {
     bool decoy = false;
     bool noOptionalCallbacks = false;          // flush, control and reset callbacks absent (they are optional; write and - for the harness - error stay)
     int controlAction = 0;                     // what the control callback does when a service request is announced: 0 nothing, 1 reads and clears ESR,
-                                               // 2 disarms SRE, 3 pushes an error (a callback may call the public API; not re-entered while it runs)
+                                               // 2 disarms SRE, 3 pushes an error, 4 pops an error (a callback may call the public API; not re-entered while it runs)
+    int idnVariant = 0;                        // identification strings handed to SCPI_Init: 0 short, 1 long (the response exceeds 72 characters), 2 with NULL fields
+    int writePushesError = 0;                  // != 0: the write callback queues this error code on its own context, once per SCPI_Input call
+    bool errorCallbackConsumes = false;        // the error callback pops the error it is told about (it only gets the code; the record has to be popped)
     int controlReturns = 0;                    // what the control callback returns: 0 OK, 1 SCPI_RES_ERR (a transport that could not deliver the request)
     const scpi_unit_def_t *units = nullptr;   // nullptr = the shipped table
 };
@@ -112,8 +116,9 @@ struct Inst {
     std::vector<int> errors;          // error callback codes
     std::vector<std::pair<int, int>> controls;
     int handlerCalls = 0;
-    bool inControl = false;
+    bool inControl = false, inErrorCb = false;
     int repush = 0, repushed = 0;     // see cbError
+    bool wrotePush = false;
     bool inPoke = false; int writePokes = 0; std::string lastChunk;   // see cbWrite / scripted
     std::unique_ptr<Inst> decoy;      // see InstCfg::decoy
     std::string invariant;            // first violated structural invariant ("" = none)
@@ -124,6 +129,8 @@ struct Inst {
         Inst *me = (Inst *) c->user_context;
         // a transport that services its other connection while it waits for room: the second instrument runs the same
         // chunk again from inside this instrument's write callback, BEFORE the bytes handed over here are taken
+        // a transport that reports a transmit problem by queueing an error from inside the write callback (once per input call)
+        if (me->cfg.writePushesError && !me->wrotePush) { me->wrotePush = true; SCPI_ErrorPush(c, (int16_t) me->cfg.writePushesError); }
         if (me->decoy && !me->inPoke && me->writePokes < 2) { me->writePokes++; me->inPoke = true; me->feedDecoy(me->lastChunk.data(), (int) me->lastChunk.size()); me->inPoke = false; }
         me->out.append(d, n);
         me->trace.push_back("W:" + vis(std::string(d, n)));
@@ -140,6 +147,7 @@ struct Inst {
         me->errors.push_back((int) e);
         me->trace.push_back(fmt("E:%d", (int) e));
         // an application that keeps a backlog of its own and re-queues from it when told that the queue has run empty
+        if (e != 0 && me->cfg.errorCallbackConsumes && !me->inErrorCb) { me->inErrorCb = true; scpi_error_t x; SCPI_ErrorPop(c, &x); SCPIDEFINE_free(&c->error_info_heap, x.device_dependent_info, false); me->inErrorCb = false; }
         if (e == 0 && me->repush > 0 && SCPI_ErrorCount(c) == 0) { me->repush--; me->repushed++; char t[24]; snprintf(t, sizeof t, "again%d", me->repushed); SCPI_ErrorPushEx(c, (int16_t) (-330 - me->repushed), t, 0); }
         return 0;
     }
@@ -152,7 +160,8 @@ struct Inst {
             switch (me->cfg.controlAction) {
                 case 1: (void) SCPI_RegGet(c, SCPI_REG_ESR); SCPI_RegSet(c, SCPI_REG_ESR, 0); break;
                 case 2: SCPI_RegSet(c, SCPI_REG_SRE, 0); break;
-                default: SCPI_ErrorPush(c, -310); break;
+                case 3: SCPI_ErrorPush(c, -310); break;
+                default: { scpi_error_t e; SCPI_ErrorPop(c, &e); SCPIDEFINE_free(&c->error_info_heap, e.device_dependent_info, false); break; }   // 4: takes the oldest error out of the queue
             }
             me->inControl = false;
         }
@@ -172,7 +181,7 @@ struct Inst {
         for (size_t i = 0; i < cfg.cmds.size(); i++) {
             scpi_command_t e;
             e.pattern = cfg.cmds[i].pattern.c_str();
-            e.callback = cfg.cmds[i].lib >= 0 ? kLibHandlers[cfg.cmds[i].lib].fn : scripted;
+            e.callback = cfg.cmds[i].lib >= 0 ? kLibHandlers[cfg.cmds[i].lib].fn : cfg.cmds[i].script.noHandler ? (scpi_command_callback_t) nullptr : scripted;
             e.tag = (int32_t) i + 1;
             table.push_back(e);
         }
@@ -183,7 +192,11 @@ struct Inst {
         memcpy(tableBuf->p, table.data(), sizeof(scpi_command_t) * table.size());
         ifc.error = cbError; ifc.write = cbWrite; ifc.control = cbControl; ifc.flush = cbFlush; ifc.reset = cbReset;
         if (cfg.noOptionalCallbacks) { ifc.control = nullptr; ifc.flush = nullptr; ifc.reset = nullptr; }
-        SCPI_Init(&ctx, (const scpi_command_t *) tableBuf->p, &ifc, cfg.units ? cfg.units : scpi_units_def, "MANU", "MODEL", nullptr, "01-02", inbuf->p, cfg.bufLen,
+        static const char *const kIdn[3][4] = {{"MANU", "MODEL", nullptr, "01-02"},
+            {"Measurement and Instrumentation Works Ltd", "Precision Source Measure Unit 2450-X", "2f1c9e4a-7b3d-4e1a-9c55-0a1b2c3d4e5f", "fw 10.12.3-rc4+build.20260930 (bootloader 2.1)"},
+            {nullptr, "M", nullptr, nullptr}};
+        const char *const *idn = kIdn[cfg.idnVariant % 3];
+        SCPI_Init(&ctx, (const scpi_command_t *) tableBuf->p, &ifc, cfg.units ? cfg.units : scpi_units_def, idn[0], idn[1], idn[2], idn[3], inbuf->p, cfg.bufLen,
                   (scpi_error_t *) qbuf->p, (int16_t) cfg.queueLen);
 #if USE_DEVICE_DEPENDENT_ERROR_INFORMATION && !USE_MEMORY_ALLOCATION_FREE
         heapbuf.reset(new XBuf(cfg.heapLen, 0xEE));
@@ -211,6 +224,7 @@ struct Inst {
     void feedDecoy(const char *d, int n) { decoy->input(d, n); decoy->input("\r", 1); decoy->trace.clear(); decoy->out.clear(); decoy->errors.clear(); decoy->controls.clear(); SCPI_ErrorClear(&decoy->ctx); }
     bool input(const std::string &bytes) { return input(bytes.data(), (int) bytes.size()); }
     bool input(const char *d, int n) {
+        wrotePush = false;
         if (decoy) { lastChunk.assign(d, (size_t) n); writePokes = 0; }
         bool decoyAfter = decoy && (inputCalls++ & 1);      // alternately before and after the call under test, so that state can leak in either direction
         if (decoy && !decoyAfter) feedDecoy(d, n);
@@ -279,8 +293,9 @@ inline void emitItem(scpi_t *c, const OItem &it) {
         case O_ARR: {
             size_t n = it.arr.size();
             static const size_t esz[] = {1, 1, 2, 2, 4, 4, 8, 8, 4, 8};
-            XBuf b(n * esz[it.elem]);
-            for (size_t i = 0; i < n; i++) memcpy(b.p + i * esz[it.elem], &it.arr[i], esz[it.elem]);   // little-endian host: low bytes
+            std::string raw(n * esz[it.elem], '\0');
+            for (size_t i = 0; i < n; i++) memcpy(&raw[i * esz[it.elem]], &it.arr[i], esz[it.elem]);   // little-endian host: low bytes
+            RoBuf b(raw.data(), raw.size());          // the array is const to the library: read-only memory, nothing readable behind it (8-byte granularity)
             scpi_array_format_t f = (scpi_array_format_t) it.format;
             switch (it.elem) {
                 case 0: SCPI_ResultArrayInt8(c, (const int8_t *) b.p, n, f); break;
